@@ -152,3 +152,18 @@ package casket
 //@   ensures [success_runs_each_shutdown_once] err == nil ==> (inst != nil && nStart == 1 && nStop == 1 && nShut == len(i.OnShutdown) && nRestart == len(i.OnRestart))
 //@   loop 1 invariant 0 <= #i && #i <= len(i.OnRestart) && nRestart == #i && nFailed == 0 && nShut == 0 && nStop == 0 && nStart == 0 && err == nil
 //@   loop 3 invariant 0 <= #i && #i <= len(i.OnShutdown) && nShut == #i && nFailed == 0 && nStop == 1 && nStart == 1 && nRestart == len(i.OnRestart) && err == nil
+
+//@ unit event_hooks props=C08 filter=`casket\.restoreEventHooks$`
+//@ // "a failed reload leaves the registered event hooks as they were": the signal handler clones the hook map, purges it,
+//@ // reloads, and on failure calls restoreEventHooks(clone). sync.Map is not modelled; what is proved is the order that makes
+//@ // the result equal to the clone: the hooks registered by the failed reload are purged before the saved ones are stored.
+//@ ghost purges int
+//@ func purgeEventHooks
+//@   modifies ghost:purges
+//@   ensures purges == old(purges) + 1
+//@ extern (*sync.Map).Range
+//@ func restoreEventHooks
+//@   requires m != nil
+//@   modifies ghost:purges
+//@   at call (*sync.Map).Range assert [purge_before_restore] purges == old(purges) + 1
+//@   ensures [purged_exactly_once] purges == old(purges) + 1
